@@ -23,7 +23,14 @@ import (
 )
 
 // noEnv is the environment mapping used unless a check explores the environment.
-func noEnv(string) string { return "" }
+// (One name has a value, for documents that want a reference whose VALUE looks like it held references itself:
+// what a mapping returns is data, it is not expanded again.)
+func noEnv(name string) string {
+	if name == "NFPM_VERIF_DOLLAR" {
+		return "costs $5 and ${NFPM_VERIF_DOLLAR} or $HOME a month"
+	}
+	return ""
+}
 
 // parseYAML runs the real parser on YAML text.
 func parseYAML(text string, mapping func(string) string) (cfg nfpm.Config, err error) {
